@@ -60,6 +60,11 @@ def parse_params(text):
     return out
 
 
+class InlineStub:
+    def __init__(self, qual):
+        self.qual = qual
+
+
 class CallMixin:
     def ev_Call(self, e, st):
         if self.spec_mode and isinstance(e.func, ast.Name) and e.func.id == "old":
@@ -261,10 +266,7 @@ class CallMixin:
         return self.apply_contract(c, args, kwargs, st, node)
 
     def call_repo(self, qual, args, kwargs, st, node):
-        c = self.contracts.get(qual)
-        if c is None:
-            raise Unsupported(f"{self.where(node)}: call of {qual}, which has no contract in the sidecar")
-        return self.apply_contract(c, args, kwargs, st, node)
+        return self.apply_contract(self.need_contract(qual, node), args, kwargs, st, node)
 
     def call_method(self, recv, name, args, kwargs, st, node):
         """method call on a receiver: repo classes by contract (closed-world split when overridden), builtins by model"""
@@ -329,8 +331,85 @@ class CallMixin:
     def need_contract(self, key, node):
         c = self.contracts.get(key)
         if c is None:
-            raise Unsupported(f"{self.where(node)}: call of {key}, which has no contract in the sidecar")
+            # a repo function the sidecar does not know (new helper): it is executed in place (recorded in the evidence as inlined)
+            return InlineStub(key)
         return c
+
+    def inline_call(self, key, args, kwargs, st, node):
+        """symbolically execute an un-contracted repo function at the call site (bounded depth; loops get the trivial invariant)"""
+        try:
+            mod, fn = self.repo.function(key)
+        except Exception:  # noqa
+            raise Unsupported(f"{self.where(node)}: call of {key}, which has no contract in the sidecar and no source")
+        if self.inline_depth >= 6:
+            raise Unsupported(f"{self.where(node)}: inlining depth exceeded at {key}")
+        self.inlined.append((self.cur_fn, key))
+        st.ghost = dict(st.ghost, unannotated_loop=True)     # code without a contract: a failed proof past this point must replay to count
+        a = fn.args
+        names = [x.arg for x in a.posonlyargs + a.args]
+        env = {}
+        args = list(args)
+        if "*" in kwargs:
+            for extra in kwargs["*"]:
+                if extra.k == "tuple":
+                    args += extra.xs
+        kw = {k: v for k, v in kwargs.items() if k not in ("*", "**")}
+        defaults = list(a.defaults)
+        dstart = len(names) - len(defaults)
+        saved = (st.env, self.cur_fn, self.cur_mod, self.loop_ordinals, self.cur_contract, st.yielded)
+        try:
+            self.cur_mod = mod
+            for i, n in enumerate(names):
+                if i < len(args):
+                    env[n] = args[i]
+                elif n in kw:
+                    env[n] = kw.pop(n)
+                elif i >= dstart:
+                    st.env = {}
+                    env[n] = self.ev1(defaults[i - dstart], st)
+                else:
+                    raise Unsupported(f"{self.where(node)}: missing argument {n} inlining {key}")
+            if a.vararg:
+                env[a.vararg.arg] = V("tuple", xs=args[len(names):])
+            elif len(args) > len(names):
+                raise Unsupported(f"{self.where(node)}: too many arguments inlining {key}")
+            for k_, d in zip(a.kwonlyargs, a.kw_defaults):
+                if k_.arg in kw:
+                    env[k_.arg] = kw.pop(k_.arg)
+                elif d is not None:
+                    st.env = {}
+                    env[k_.arg] = self.ev1(d, st)
+            if a.kwarg:
+                env[a.kwarg.arg] = V("kwargs", xs=kw)
+            elif kw:
+                raise Unsupported(f"{self.where(node)}: unexpected keyword arguments inlining {key}")
+            st.env = env
+            self.cur_fn = key
+            self.cur_contract = None
+            self.loop_ordinals = {id(l): i for i, l in enumerate(self.repo.loops(fn))}
+            is_gen = any(isinstance(n, (ast.Yield, ast.YieldFrom)) for n in ast.walk(fn))
+            if is_gen:
+                st.yielded = z3.Empty(SeqV)
+            self.inline_depth += 1
+            try:
+                finals = self.exec_block(fn.body, [st])
+            finally:
+                self.inline_depth -= 1
+            out = []
+            for f in finals:
+                f.env = saved[0] if f is st else dict(saved[0])
+                if f.status == "raise":
+                    out.append((f, None))
+                    continue
+                ret = f.ret if f.status == "ret" and f.ret is not None else VNONE
+                if is_gen:
+                    ret = V("gen", f.yielded if f.yielded is not None else z3.Empty(SeqV))
+                    f.yielded = saved[5]
+                f.status, f.ret = "run", None
+                out.append((f, ret))
+            return out
+        finally:
+            _, self.cur_fn, self.cur_mod, self.loop_ordinals, self.cur_contract, _ = saved
 
     def call_classmethod(self, cls, name, args, kwargs, st, node):
         a = self.repo.attr(cls, name)
@@ -414,6 +493,8 @@ class CallMixin:
         return v
 
     def apply_contract(self, c, args, kwargs, st, node):
+        if isinstance(c, InlineStub):
+            return self.inline_call(c.qual, args, kwargs, st, node)
         saved_spec_mod = self._spec_mod
         self._spec_mod = c.qual.split(".")[0] if c.qual.split(".")[0] in self.repo.trees else None
         try:
